@@ -503,13 +503,27 @@ _asn1f_compare_tags(arg_t *arg, asn1p_expr_t *a, asn1p_expr_t *b) {
 		 * Iterate over members of CHOICE.
 		 */
 		//if(a->_mark & TM_RECURSION) return 0;
+		/*
+		 * An untagged CHOICE which contains itself has no
+		 * determinable tags; do not recurse forever.
+		 */
+		static int choice_depth;
+		if(choice_depth >= 128) {
+			FATAL("Untagged CHOICE %s at line %d contains itself, "
+				"its tags can not be determined",
+				a->Identifier, a->_lineno);
+			return -1;
+		}
+		choice_depth++;
+		ret = 0;
 		TQ_FOR(v, &(a->members), next) {
 			//a->_mark |= TM_RECURSION;
 			ret = _asn1f_compare_tags(arg, v, b);
 			//a->_mark &= ~TM_RECURSION;
-			if(ret) return ret;
+			if(ret) break;
 		}
-		return 0;
+		choice_depth--;
+		return ret;
 	}
 
 	if(rb && b->expr_type == ASN_CONSTR_CHOICE) {
